@@ -68,6 +68,16 @@ def drive(kind: str, stream: bytes, cuts=(), *, limits: dict | None = None, read
 
     proto = Proto(loop)
     kw = dict(limit=read_limit, **{k: v for k, v in limits.items()})
+    # built the way the package builds them (web_protocol.RequestHandler / client_proto.ResponseHandler): the error
+    # paths of the body parser depend on payload_exception
+    if kind == "request":
+        from aiohttp.web_protocol import RequestPayloadError
+
+        kw["payload_exception"] = RequestPayloadError
+    else:
+        from aiohttp.client_exceptions import ClientPayloadError
+
+        kw["payload_exception"] = ClientPayloadError
     kw.update(parser_kwargs or {})
     if kind == "request":
         parser = hp.HttpRequestParserPy(proto, loop, **kw)
